@@ -146,14 +146,18 @@ def pairsOf : List Nat → List (Nat × Nat) → List (Nat × Nat)
   | held, _ :: r => pairsOf held r
 
 /-- every transport write (kind 2) happens while `out` is held, or — the `flush` of the failing
-handshake — while `handshakeMutex` and `in` are -/
-def emitsGuarded : List Nat → List (Nat × Nat) → Bool
+handshake and the DTLCP flight writes — while `handshakeMutex` and `in` are.  On a datagram
+transport (`datagram = true`) a write under `in` alone is also admitted: the DTLCP read path
+re-sends a stored, already encrypted flight as ONE datagram during the dwell period; it touches
+no `out` state and a datagram cannot tear another one. -/
+def emitsGuarded (datagram : Bool) : List Nat → List (Nat × Nat) → Bool
   | _, [] => true
-  | held, (0, l) :: r => emitsGuarded (l :: held) r
-  | held, (1, l) :: r => emitsGuarded (held.erase l) r
+  | held, (0, l) :: r => emitsGuarded datagram (l :: held) r
+  | held, (1, l) :: r => emitsGuarded datagram (held.erase l) r
   | held, (2, _) :: r =>
-    (held.contains lkOut || (held.contains lkHandshake && held.contains lkIn)) && emitsGuarded held r
-  | held, _ :: r => emitsGuarded held r
+    (held.contains lkOut || (held.contains lkHandshake && held.contains lkIn) ||
+      (datagram && held.contains lkIn)) && emitsGuarded datagram held r
+  | held, _ :: r => emitsGuarded datagram held r
 
 /-- every consumption of plaintext input (kind 7) happens while `in` is held -/
 def consumesGuarded : List Nat → List (Nat × Nat) → Bool
